@@ -4,6 +4,8 @@
 (*     Grammar!Alphabet, except the shapes of the recorded defects (Grammar!Steered) and their extensions;        *)
 (*  Mode = "queries" (-simulate): random abstract queries of depth <= 3, each printed in NTexts  *)
 (*     ways (blanks, redundant parentheses, quoting, escapes, elastic / bracket ranges).         *)
+(*  Mode = "chains"  (model checking): every chain of 2..3 words joined by AND / OR / juxtaposition, *)
+(*     each operand bare or marked + / - / NOT;                                                    *)
 (* The corpus and the alphabet are printed once so that the harness knows nothing by itself.    *)
 EXTENDS Grammar, TLC, Json
 
@@ -75,6 +77,8 @@ Composite(r, k, depth) ==
                   [x \in 1..n |-> <<(<<"", "+", "">>)[(R(r, k + 2 + x) % 3) + 1],
                                     IF R(r, k + 5 + x) % 4 = 0 THEN <<"ph", "", <<1 + (R(r, k + 6 + x) % NW), 1 + (R(r, k + 8 + x) % NW)>>, 0, FALSE>>
                                     ELSE <<"w", "", 1 + (R(r, k + 6 + x) % NW)>>>>]>>
+    [] c = 6 -> <<"chain", [x \in 1..n |-> <<(<<"", "", "-", "+", "-", "NOT">>)[(R(r, k + 1 + x) % 6) + 1], Operand(r, k + 7 * x, depth)>>],
+                           [x \in 1..(n - 1) |-> (<<"AND", "OR", "OR", "">>)[(R(r, k + 4 + x) % 4) + 1]]>>
     [] c = 5 -> LET o == Operand(r, k + 2, depth) IN <<"boost", IF o[1] = "rng" THEN <<"paren", o>> ELSE o, 2 + (R(r, k + 1) % 3)>>
     [] OTHER -> FixLeaf(Leaf(r, k + 1))
 \* queries made only of exclusions (refused by the parser; the lenient parser answers the rest)
@@ -85,7 +89,7 @@ Rnd == 0..10079        \* divisible by 2..10: every `% m` above is uniform
 
 GInit == s = <<>> /\ done = FALSE
         /\ (Mode \in {"strings", "long"} => PrintT(<<"ALPHABET", ToJson(Alphabet)>>))
-        /\ (Mode = "queries" => PrintT(<<"CORPUS", ToJson(Corpus)>>))
+        /\ (Mode \in {"queries", "chains"} => PrintT(<<"CORPUS", ToJson(Corpus)>>))
 
 Extend ==
   /\ Mode = "strings" /\ Len(s) < MaxLen
@@ -103,6 +107,18 @@ NewQuery ==
                   [] OTHER -> Composite(r, 2, 2)
            texts == [x \in 1..NTexts |-> PrintQ(q, [y \in 1..11 |-> R(r, 3 * x + 5 * y)])]
        IN  PrintT(<<"CASE", ToJson([q |-> q, texts |-> texts])>>)
+  /\ done' = TRUE /\ UNCHANGED s
+
+\* Mode = "chains" (model checking): every chain of 2..3 fixed words joined by AND / OR / juxtaposition,
+\* each operand bare or marked with + / - / NOT (marker x operator interaction), printed in three styles
+ChainWords == << <<"w", "title", 3>>, <<"w", "", 1>>, <<"w", "", 4>> >>     \* ba in 3,7; ab in 1-5,7; c in all but 6
+ChainMarks == {"", "+", "-", "NOT"}
+ChainOps == {"AND", "OR", ""}
+ChainShapes == UNION {{<<"chain", [x \in 1..n |-> <<ms[x], ChainWords[x]>>], os>> : ms \in [1..n -> ChainMarks], os \in [1..(n - 1) -> ChainOps]} : n \in 2..3}
+ChainStyles == << <<0, 1, 1, 0, 0, 0, 0, 0, 0, 0, 0>>, <<1, 0, 2, 1, 1, 0, 1, 1, 0, 1, 1>>, <<2, 1, 4, 0, 1, 1, 0, 2, 1, 0, 1>> >>
+AllChains ==
+  /\ Mode = "chains" /\ ~done
+  /\ \A q \in ChainShapes : PrintT(<<"CASE", ToJson([q |-> q, texts |-> [x \in 1..3 |-> PrintQ(q, ChainStyles[x])]])>>)
   /\ done' = TRUE /\ UNCHANGED s
 
 \* Mode = "long" (-simulate): a random token string of 6..30 tokens, or a repetition pre^n mid post^n
@@ -136,6 +152,6 @@ NewLong ==
             IN  IF Steered(ts) THEN TRUE ELSE PrintT(<<"S", ts>>)
   /\ done' = TRUE /\ UNCHANGED s
 
-GNext == Extend \/ NewQuery \/ NewLong
+GNext == Extend \/ NewQuery \/ AllChains \/ NewLong
 GSpec == GInit /\ [][GNext]_gvars
 =============================================================================
